@@ -163,10 +163,13 @@ def set_sampler(rnd, mod, spec, depth):
         s.name = rnd.choice([b"", b"kick", b"n" * 22, b"long-name-" * 3])
         s.start_pos = rnd.choice([0, 3, u32(rnd)])
         mod.samples[i] = s
+    empty_vol = rnd.random() < 0.15          # an empty volume envelope next to customised other envelopes (edge case)
     for k, e in enumerate([mod.volume_envelope, mod.panning_envelope, mod.pitch_envelope] + list(mod.effect_control_envelopes)):
-        if rnd.random() < 0.6:
+        if rnd.random() < 0.6 or empty_vol:
             lo, hi = e.range
             n = rnd.choice([0, 1, 2, 4, 12, 13, rnd.randrange(1, 40)])
+            if empty_vol:
+                n = 0 if k == 0 else rnd.choice([3, 5, 12])
             xs = sorted(rnd.randrange(65536) for _ in range(n))
             e.points = [(x, rnd.choice([lo, hi, rnd.randrange(lo, hi + 1), (rnd.randrange(lo, hi + 1) // 512) * 512])) for x in xs]
             e.enable, e.sustain, e.loop = (rnd.random() < 0.5), (rnd.random() < 0.5), (rnd.random() < 0.5)
